@@ -52,6 +52,40 @@ ASSUMPTIONS = [
 ]
 
 
+DATA_MODE = -1
+
+
+def fixed_cases():
+    """seed-independent grid (CHECKLIST items 2 and 4): empty / one-byte / whole-file / end-of-file windows,
+    windows of exactly buffersize x max_buffers bytes and one more or less, buffer size 1 and cache limit 1,
+    each driven by scripted operation sequences that walk the window forwards, backwards and past both ends"""
+    out = []
+    file_ = bytes((7 * i + 3) % 251 for i in range(97))
+    for bs, mb in ((1, 1), (1, 2), (2, 2), (3, 2), (4, 3), (16, 2), (16384, 30)):
+        W = bs * mb
+        windows = {(0, 0), (40, 0), (97, 0), (0, 1), (96, 1), (0, 97), (5, 92), (13, min(W, 84)),
+                   (13, min(W + 1, 84)), (13, max(0, min(W - 1, 84))), (13, min(2 * W + 1, 84)), (bs, min(bs, 97 - bs)),
+                   (max(0, bs - 1), min(bs + 1, 90))}
+        for off, size in sorted(windows):
+            if size < 0 or off > len(file_) or off + size > len(file_):
+                continue
+            scripts = [
+                [("r", 1)] * min(size + 2, 12) + [("t",), ("s", 0, 0), ("r", -1), ("r", 1), ("p", 1)],
+                [("s", -1, 2), ("p", 5), ("r", 5), ("s", -size, 1), ("p", size + 3), ("r", size + 3), ("t",)],
+                [("p", bs + 1), ("s", bs, 0), ("p", 1), ("s", -1, 1), ("r", 2), ("s", 10 ** 6, 0), ("r", 1),
+                 ("s", -10 ** 6, 1), ("r", bs), ("s", 1, 2), ("t",), ("s", -10 ** 6, 2), ("p", 2 * W + 1)],
+                [op for k in range(0, size, max(1, bs)) for op in (("s", k, 0), ("p", 1))][:24]
+                + [op for k in range(size, -1, -max(1, bs)) for op in (("s", k, 0), ("r", 1))][:24] + [("r", 0), ("r", -3)],
+            ]
+            for ops in scripts:
+                out.append((file_, off, size, bs, mb, ops))
+    for n in (0, 1, 2, 97):                      # the in-memory form
+        for ops in ([("r", 1), ("p", 3), ("s", -1, 2), ("r", -1), ("t",), ("s", 5, 0), ("r", 2), ("s", -200, 1), ("p", 200)],
+                    [("r", -1), ("r", -1), ("s", 0, 2), ("p", 1), ("t",)]):
+            out.append((file_[:n], 0, n, max(n, 1), DATA_MODE, ops))
+    return out
+
+
 def gen_case(rng, big: bool):
     flen = rng.choice([0, 1, 2, 5, 16, 33, 64, 100, 257]) if rng.random() < .5 else rng.randrange(0, 300)
     data = bytes(rng.randrange(256) for _ in range(flen))
@@ -60,7 +94,12 @@ def gen_case(rng, big: bool):
     if rng.random() < .15:
         size = flen - off
     bs = rng.choice([1, 2, 3, 4, 5, 7, 8, 16, 31, 64, 1024]) if rng.random() < .8 else rng.randrange(1, 400)
-    mb = rng.choice([2, 2, 3, 4, 30])
+    mb = rng.choice([1, 2, 2, 3, 4, 30])
+    if rng.random() < .1:
+        # the in-memory form `BufferedReader(None, data=...)` (used for pssh/PRO/SCTE-35 payloads): one
+        # preloaded buffer holding everything, no underlying file; marked by max_buffers = -1.  It is the
+        # model's window (0, len) with buffersize = len
+        off, size, bs, mb = 0, flen, max(flen, 1), DATA_MODE
     nops = rng.randrange(1, 60 if big else 25)
     ops = []
     for _ in range(nops):
@@ -106,7 +145,10 @@ def run_impl(case):
     """real class; returns canonical outputs + list of oracle failures"""
     from dashlive.utils.buffered_reader import BufferedReader
     data, off, size, bs, mb, ops = case
-    r = BufferedReader(io.BytesIO(data), buffersize=bs, offset=off, size=size, max_buffers=mb)
+    if mb == DATA_MODE:
+        r = BufferedReader(None, data=data)
+    else:
+        r = BufferedReader(io.BytesIO(data), buffersize=bs, offset=off, size=size, max_buffers=mb)
     window = data[off:off + size]
     pos = 0  # oracle position
     outs, fails = [], []
@@ -210,7 +252,7 @@ def evaluate(cases, ch: Channel):
     lines = []
     for c in cases:
         data, off, size, bs, mb, ops = c
-        lines.append(f"bufreader {data.hex() or '-'} {off} {size} {bs} {mb} {fmt_ops(ops)}")
+        lines.append(f"bufreader {data.hex() or '-'} {off} {size} {bs} {2 if mb == DATA_MODE else mb} {fmt_ops(ops)}")
     try:
         model = common.run_driver(lines)
     except Exception as e:
@@ -225,6 +267,11 @@ def evaluate(cases, ch: Channel):
             outs, fails = [f"exception:{type(e).__name__}"], [
                 {"what": f"exception {type(e).__name__}: {e}"}]
         ch.count(f"ops<={10 * (len(ops) // 10 + 1)}")
+        ch.count("constructor:data=" if mb == DATA_MODE else "constructor:window")
+        if size == 0:
+            ch.count("empty_window")
+        if mb != DATA_MODE and size > bs * mb:
+            ch.count("window_larger_than_cache")
         ch.count("window_not_multiple_of_bufsize" if size % bs else "window_multiple_of_bufsize")
         ch.count("window_starts_mid_buffer" if off % bs else "window_starts_on_buffer")
         kinds = {o[0] for o in ops}
@@ -259,11 +306,13 @@ def corpus_cases():
 
 def channels(ctx):
     ch = Channel("bufreader", rule=(
-        "seeded operation sequences (read n / read -1 / peek / seek set,cur,end / tell) on the real "
-        "BufferedReader over io.BytesIO vs the Lean model; non-trivial = window larger than one buffer, "
+        "a fixed grid (empty, one-byte, whole-file and end-of-file windows, windows of exactly buffersize x "
+        "max_buffers bytes +-1, buffer size 1, cache limit 1; scripted walks) and seeded operation sequences "
+        "(read n / read -1 / peek / seek set,cur,end / tell) on the real BufferedReader over io.BytesIO - and, "
+        "for one case in ten, the in-memory form BufferedReader(None, data=...) - vs the Lean model; non-trivial = window larger than one buffer, "
         "at least one read/peek and >= 2 kinds of operation; distinct by full case"))
     rng = ctx.rng("bufreader")
-    cases = corpus_cases()
+    cases = corpus_cases() + fixed_cases()
     n = ctx.scale(3000, 300000)
     cases += [gen_case(rng, ctx.thorough) for _ in range(n)]
     evaluate(cases, ch)
@@ -274,7 +323,7 @@ def search(ctx, disagreements):
     """Layer C: look for an input on which the real class violates C20"""
     rng = ctx.rng("search")
     seeds = [case_from_json(d["case"]) for d in disagreements if "case" in d]
-    for c in seeds + [gen_case(rng, True) for _ in range(20000)]:
+    for c in seeds + fixed_cases() + [gen_case(rng, True) for _ in range(20000)]:
         f = _fails_only(c)
         if f:
             mini = shrink(c, lambda cc: bool(_fails_only(cc)))
